@@ -19,9 +19,11 @@ class VmIo:
             case IoOp.REGISTER:
                 self._unnamed.append(self._reg.get_by_enum(inst.param1))
             case IoOp.PRINT:
+                # Only the value belonging to this print is consumed. Any
+                # values below it are parameters of a printf still being
+                # evaluated.
                 if len(self._unnamed) > 0:
-                    output.out(self._unnamed[0])
-                    self._unnamed.clear()
+                    output.out(self._unnamed.pop())
             case IoOp.PRINT_END:
                 output.newline()
             case IoOp.PRINTF:
@@ -52,5 +54,13 @@ class VmIo:
                     named[name] = self._reg.get_by_enum(reg)
                 else:
                     named[name] = self._call_stack.get_variable(name)
-        output.out(format_str.format(*self._unnamed, **named))
-        self._unnamed.clear()
+        # Take only as many values as the compiler supplied for this format
+        # string, leaving those of an enclosing printf in place.
+        num_unnamed = sum(
+            (1 for field in string.Formatter().parse(format_str)
+             if field[1] is not None
+             and (len(field[1]) == 0 or field[1].isdecimal())))
+        first = len(self._unnamed) - num_unnamed
+        unnamed = self._unnamed[first:]
+        del self._unnamed[first:]
+        output.out(format_str.format(*unnamed, **named))
